@@ -62,7 +62,45 @@ def h_pair(ctx):
     return None
 
 
+DENSE_TOPS = ["any", "wild:0.0.84.0", "wild:0.0.21.0", "wild:0.0.255.255", "wild:0.0.85.0", "wild:0.0.80.0"]
+DENSE_BOTS = ["wild:0.0.85.0", "wild:0.0.84.0", "wild:0.0.170.0"]
+
+
+def h_dense(ctx):
+    """wildcards with 3..4 non-contiguous bits (8..16 networks) on one address; top and bottom share the base or not"""
+    from cisco_acl import Ace
+    from symx import text as T
+    from oracle.packet import addr_pred
+    from .common import m2i
+    platform = ctx.pick("platform", ["ios", "nxos"])
+    tf, bf = ctx.pick("top", DENSE_TOPS), ctx.pick("bot", DENSE_BOTS)
+    shared = ctx.pick("shared", [True, False])
+    side = ctx.pick("side", ["src", "dst"])
+    bs, bv = T.fresh_quad(ctx, "b")
+    ts, tv = (bs, bv) if shared else T.fresh_quad(ctx, "t")
+    x = ctx.fresh("x", 0, 0xFFFFFFFF)
+
+    def addr(form, s):
+        return "any" if form == "any" else s + " " + form[5:]
+    ta, ba = addr(tf, ts), addr(bf, bs)
+    tl = "permit ip " + (ta + " any" if side == "src" else "any " + ta)
+    bl = "permit ip " + (ba + " any" if side == "src" else "any " + ba)
+    t, b = Ace(tl, platform=platform, max_ncwb=30), Ace(bl, platform=platform, max_ncwb=30)
+    got = b.shadow_of(t)
+    ctx.observe("top", t.line)
+    ctx.observe("bottom", b.line)
+    ctx.observe("got", got)
+    ctx.reach("true" if got else "false")
+    in_b = addr_pred(x, bv, m2i(bf[5:]))
+    in_t = True if tf == "any" else addr_pred(x, tv, m2i(tf[5:]))
+    ctx.claim("sound-dense", And_(got, in_b, Not_(in_t)))
+    ctx.claim("exact-dense", Xor_(got, inc.wild_subset(bv, m2i(bf[5:]), tv if tf != "any" else 0, 0xFFFFFFFF if tf == "any" else m2i(tf[5:]))))
+    return None
+
+
 def specs(tier, seed, concrete=False):
     rows, info = P.rows(2 if tier == "quick" else 3, seed, groups=True, candidates=30 if tier == "quick" else 10)
     return [Spec("pair", h_pair, rows, goals=["true", "false"], max_paths=6000,
-                 describe=f"Ace.shadow_of(top, skip) vs packet-level containment, covering array {info} + twins")]
+                 describe=f"Ace.shadow_of(top, skip) vs packet-level containment, covering array {info} + twins"),
+            Spec("dense", h_dense, [{"top": t, "bot": b, "shared": s} for t in DENSE_TOPS for b in DENSE_BOTS for s in (True, False)],
+                 goals=["true", "false"], max_paths=6000, describe="wildcards with 3-4 stray bits (8-16 networks each)")]
